@@ -37,6 +37,10 @@ var progTexts = map[string]string{
 	"dup":   ".,.", "none": "empty", "wrap": "[.]", "var": "$x",
 	"emitfailB": ".,(if type==\"string\" then error(\"x\") else empty end)",
 	"failnullB": "if type==\"string\" then error(null) else . end",
+	"tryB":      "try (if type==\"string\" then error(\"x\") else . end)",
+	"optB":      "(if type==\"string\" then error(\"x\") else . end)?",
+	"labelB":    "label $f | if type==\"string\" then break $f else . end",
+	"defB":      "def f: if type==\"string\" then error(\"x\") else . end; f",
 }
 
 type unit struct{ toks []tok } // a flag with its value tokens: must stay together
@@ -113,7 +117,7 @@ func randCase(rng *rand.Rand, id int) e2eCase {
 		hasU = true
 	}
 	// program
-	prog := pick(rng, []string{"id", "id", "failB", "failB", "nocompile", "collect", "haltB", "dup", "none", "wrap", "var", "var", "emitfailB", "failnullB"})
+	prog := pick(rng, []string{"id", "id", "failB", "failB", "nocompile", "collect", "haltB", "dup", "none", "wrap", "var", "var", "emitfailB", "failnullB", "tryB", "optB", "labelB", "defB"})
 	useFile := rng.Float64() < 0.12
 	progFile := pick(rng, []string{"id.jq", "fail.jq", "id.jq", "fail.jq", "nope.jq"})
 
@@ -266,7 +270,7 @@ func randCase(rng *rand.Rand, id int) e2eCase {
 		fidx = []int{}
 	}
 	// solo runs are only needed where independence applies: a per-input program, no -n, no --slurp
-	perInput := map[string]bool{"id": true, "failB": true, "dup": true, "none": true, "wrap": true, "var": true, "emitfailB": true, "failnullB": true}
+	perInput := map[string]bool{"id": true, "failB": true, "dup": true, "none": true, "wrap": true, "var": true, "emitfailB": true, "failnullB": true, "tryB": true, "optB": true, "labelB": true, "defB": true}
 	solo := (useFile || perInput[prog]) && len(fidx) > 0
 	for _, b := range bools {
 		if b == "null_input" || b == "slurp" {
